@@ -108,6 +108,16 @@ CHECKS = {
         "weight lies in the directory-snapshot correspondence. Multi-command OVERWRITE chains are checked one command at a time.",
    technique="Coq proof (loop invariant over the match list; finite-map file system) + directory snapshot differential",
    ref="DESIGN.md 7 C06"),
+ "C20": dict(
+   text="Theorems (closed): C20_path_matches_iff - the segment matcher (the Go loop: greedy, backtracking to the last star) decides exactly '* = any run of characters, every other character "
+        "itself' for ALL patterns and names, any number of stars (invariant: alternatives of an earlier star are subsumed when a later star is reached); C20_path_matches_total - its loop never "
+        "runs out of fuel (potential function); C20_file_list_exact - for every finite tree with unique names per directory and every pattern whose directory segments are not all stars, the "
+        "file list is exactly the regular files whose path matches segment by segment (none missing, none extra, no directories). Tie: exhaustive patterns x names over {a,b,.,*} on a real "
+        "directory, generated trees with relative and absolute patterns, against an independent Python matcher and the model.",
+   note="Excluded as the property says: all-star directory segments and ./.. segments. os.ReadDir is modelled as the children list; duplicates cannot arise under unique names (NoDup is checked "
+        "on the implementation, not proved). Result paths are compared after filepath.Clean (absolute patterns yield //tmp/...). Repaired: 68c9543 (star matcher), f3a9d0f (debug print).",
+   technique="Coq proof (loop invariant for greedy star matching + fuel potential; induction over path segments) + exhaustive small-scope and generated-tree differential",
+   ref="DESIGN.md 7 C20"),
  "C04": dict(
    text="Theorems C04_windows_any_engine / C04_find_matches / C04_replace (Coq, closed): for ANY attempt function, text and window sizes, "
         "top/take n, skip s, skip s take t and last n (n>=1) of the model's findMatches are firstn/skipn slices of the `find all` sequence, "
